@@ -49,6 +49,7 @@ def run(ctx):
         ctx.guard("C01", "casts", lambda: casts.census(ctx, prog, scope='internals::generate::', floor=3))
         if c.startswith("unsafe"):
             ctx.guard("C01", "mirror", lambda: engine.mirror(ctx, prog))
+            ctx.guard("C01", "cursor", lambda: engine.pointer_cursor(ctx, prog))
             base = progs["rel"]
             ctx.guard("C01", "enginemap", lambda: engine.engine_correspondence(ctx, base, prog))
         else:
